@@ -4,7 +4,7 @@ import vlib, gen_globals, gen_globaluses
 from genlib import *
 
 LEAN_MODULES = ["MpirProofs.Props.C15_globals"]
-THEOREMS = ["Mpir.Gen.escaped_statics_harmless", "Mpir.Gen.documented_cells_writers",
+THEOREMS = ["Mpir.Gen.escaped_statics_harmless", "Mpir.Gen.documented_cells_writers", "Mpir.Gen.documented_cells_reach",
             "Mpir.Threads.interleaving_irrelevant_cells", "Mpir.Threads.read_shared_schedule_independent",
             "Mpir.Threads.apiStep_preserves", "Mpir.Threads.api_readers_schedule_independent"]
 GEN = [gen_globaluses.gen_globaluses]
@@ -95,29 +95,10 @@ def extra(ctx, cov):
 
 def explain_broken(ctx, proof_broken):
     """name the objects (and the uses) that make escaped_statics_harmless / documented_cells_writers fail"""
-    try:
-        objs, uses, asm_refs, ntu = gen_globaluses.analyse(ctx.build)
-        _, refs, initaddrs, _ = gen_globals.scan2(ctx.build)
-    except Exception as e: return "source analysis failed: %s" % e
-    doc = {"__gmp_allocate_func": ["__gmp_set_memory_functions"], "__gmp_reallocate_func": ["__gmp_set_memory_functions"], "__gmp_free_func": ["__gmp_set_memory_functions"],
-           "__gmp_default_fp_limb_precision": ["__gmpf_set_default_prec"], "__gmp_errno": [], "__gmp_junk": ["__gmp_exception"],
-           "__gmp_rands": ["__gmpf_random2", "__gmpn_random", "__gmpn_random2"], "__gmp_rands_initialized": ["__gmpf_random2", "__gmpn_random", "__gmpn_random2"]}
-    out = []
-    stores = {}
-    for (mem, fn, key, kind) in refs:
-        if kind == "store": stores.setdefault(key, set()).add(fn)
-    for key, o in sorted(objs.items(), key=lambda x: x[0][1]):
-        if key[1] in doc or o["sect"].startswith(".data.rel.ro"): continue
-        b = gen_globaluses.base_name(key[1])
-        bad = [u for u in uses if u["obj"] == b and u["objmember"] == key[0] and u["kind"] not in gen_globaluses.READONLY_KINDS]
-        if key in stores or bad:
-            out.append("undocumented writable static %s (%s, %s, %d bytes, %s symbol): %s%s" % (
-                key[1], key[0], o["sect"], o["size"], "local" if o["local"] else "global",
-                ("store instructions in " + ", ".join(sorted(stores[key])) + "; ") if key in stores else "",
-                "; ".join("%s at %s:%d in %s%s" % (u["kind"], u["file"], u["line"], u["func"] or "<static initialiser>", (" [" + u["via"] + "]") if u["via"] else "") for u in bad[:6])))
-    for c, ws in doc.items():
-        binw = {fn for (mem, fn, key, kind) in refs if key[1] == c and kind in ("store", "addr")}
-        srcw = {u["func"] for u in uses if u["obj"] == c and u["kind"] not in gen_globaluses.READONLY_KINDS}
-        if binw != set(ws) or srcw != set(ws):
-            out.append("documented cell %s: written by %s (binary) / %s (source), documented setters are %s" % (c, sorted(binw), sorted(srcw), ws))
-    return "\n".join(out)
+    v = getattr(ctx, "globaluses_violations", None)
+    if v is None:
+        try:
+            objs, uses, asm_refs, ntu = gen_globaluses.analyse(ctx.build)
+            v = gen_globaluses.violations(ctx.build, None, uses)
+        except Exception as e: return "source analysis failed: %s" % e
+    return "\n".join(v)
